@@ -318,7 +318,7 @@ func rhsOf(stmt ast.Node) ast.Expr {
 func testedNil(x *Explorer, st *State, o types.Object) bool {
 	for k, v := range st.Facts {
 		pk := PlainKey(k)
-		if v && (pk == o.Name()+" == nil" || pk == "nil == "+o.Name()) && strings.Contains(k, fmt.Sprintf("%s·%d", o.Name(), int(o.Pos()-x.Fn.Pos()))) {
+		if v && (pk == RoleOf(o)+" == nil" || pk == "nil == "+RoleOf(o)) && strings.Contains(k, fmt.Sprintf("%s·%d", RoleOf(o), int(o.Pos()-x.Fn.Pos()))) {
 			return true
 		}
 	}
@@ -328,7 +328,7 @@ func testedNil(x *Explorer, st *State, o types.Object) bool {
 func testedNonNil(x *Explorer, st *State, o types.Object) bool {
 	for k, v := range st.Facts {
 		pk := PlainKey(k)
-		if !v && (pk == o.Name()+" == nil" || pk == "nil == "+o.Name()) && strings.Contains(k, fmt.Sprintf("%s·%d", o.Name(), int(o.Pos()-x.Fn.Pos()))) {
+		if !v && (pk == RoleOf(o)+" == nil" || pk == "nil == "+RoleOf(o)) && strings.Contains(k, fmt.Sprintf("%s·%d", RoleOf(o), int(o.Pos()-x.Fn.Pos()))) {
 			return true
 		}
 	}
